@@ -103,8 +103,7 @@ def check(case):
             lab.append("sizes_covered")
         # every variable occurs: P(variable v not in one intervention of size >= max(lo,1)) <= 1 - max(lo,1)/p  (with replacement)
         if replace and hi >= 1:
-            pin = (lo + hi) / 2.0 / p if lo < hi else hi / float(p)
-            pin = max(pin if lo >= 1 else (hi / 2.0) / p * 0.5, 1e-9)
+            pin = (lo + hi) / 2.0 / p          # P(a given variable is in one intervention) = E[size] / p
             if p * (1 - min(pin, 1.0)) ** draws < 1e-12:
                 missing = set(range(p)) - vars_seen
                 if missing:
@@ -148,6 +147,7 @@ LARGE = [(61, 500, 3, True), (100, 400, 4, True), (250, 40, 12, True), (250, 20,
          # sizes just below p/20, p/10, p/2 (where an implementation may switch sampling strategies)
          (1000, 200, 49, True), (2000, 100, 99, True), (400, 300, 19, True), (900, 15, [40, 44], False),
          (300, 200, 29, True), (300, 2, 149, False), (64, 300, 31, True)]
+HUGE = [(25000, 401, 2, True), (101, 100001, 3, True), (5000, 2001, [1, 3], True)]        # K * p > 10^7
 
 
 def plan(tier, seed):
@@ -158,6 +158,8 @@ def plan(tier, seed):
         for r in range(0, reps, 20):
             jobs.append({"sub": "large_p", "seed": seed, "p": p, "K": K, "size": size, "replace": replace,
                          "seeds": [seed * 7919 + k * 100003 + r + j for j in range(20)], "cost": 6})
+    for k, (p, K, size, replace) in enumerate(HUGE):
+        jobs.append({"sub": "large_p", "seed": seed, "p": p, "K": K, "size": size, "replace": replace, "seeds": [seed * 31 + k], "cost": 30})
     nshards = 32 if tier == "quick" else 96
     for k in range(nshards):
         jobs.append({"sub": "grid", "seed": seed, "shard": k, "nshards": nshards, "nseeds": 60 if tier == "quick" else 400, "cost": 10})
@@ -189,6 +191,17 @@ def run(job):
                 continue
             err = expected_error(case["p"], case["K"], _size_arg(case["size"]), case["replace"])
             ns = 3 if err else job["nseeds"]
+            if not err and case["K"] >= 1:
+                # enough seeds to make the coverage demands effective (every size of a range, every variable), capped
+                sz = case["size"]
+                lo_, hi_ = (sz if isinstance(sz, list) else (sz, sz))
+                need = 0
+                if hi_ > lo_:
+                    nsz = hi_ - lo_ + 1
+                    need = max(need, math.log(1e-12 / nsz) / math.log(1 - 1.0 / nsz) / case["K"])
+                if case["replace"] and hi_ >= 1 and (lo_ + hi_) / 2.0 < case["p"]:
+                    need = max(need, math.log(1e-12 / case["p"]) / math.log(1 - (lo_ + hi_) / 2.0 / case["p"]) / case["K"])
+                ns = int(min(max(ns, need + 1), 900))
             case["seeds"] = [job["seed"] * 1000003 + n * 211 + s for s in range(ns)]
             if not err:
                 case["seeds"][0] = 0
